@@ -24,7 +24,7 @@ RULE = ('one trash-put per case, of one file - or, in a quarter of the cases, of
         'switch is involved; distinct = (home mode, file place, .Trash state, .Trash-uid state, xdg, options, chosen kind)')
 ASSUMPTIONS = ['relative XDG_DATA_HOME and unset HOME are not generated (the statement does not define them)',
                'worlds where the prescribed directory cannot be created (parent is a file) are not generated']
-PROBES = ['chmod-refused-by-the-file-system', 'crash-points-with-modes-checked', 'with-concurrent-companion', 'arguments-on-different-volumes', 'home-chosen', 'top-chosen', 'alt-chosen', 'custom-chosen', 'none-chosen', 'created-0700', 'cross-volume-symlink-path',
+PROBES = ['HOME-not-in-the-environment', 'chmod-refused-by-the-file-system', 'crash-points-with-modes-checked', 'with-concurrent-companion', 'arguments-on-different-volumes', 'home-chosen', 'top-chosen', 'alt-chosen', 'custom-chosen', 'none-chosen', 'created-0700', 'cross-volume-symlink-path',
           'xdg-empty', 'fallback-copy', 'alt-symlink-other-volume', 'umask-not-022']
 TECHNIQUE = 'deterministic simulation of trash-put over the configuration lattice; chosen directory compared with a spec-level chooser; op-trace monitor for EXDEV/copy and stdin reads'
 LEVEL_TEXT = 'seeded exploration of mount layouts x .Trash states x env x options; decision-table check against model/chooser.py plus mode and same-volume checks'
@@ -55,12 +55,15 @@ def gen(rng):
             if rng.random() < 0.6:
                 steps.append(['d', t_, 0o700])
                 steps.append(['d', t_ + '/' + rng.choice(['info', 'info', 'files']), 0o700])
+    if rng.random() < 0.05:
+        # HOME is not in the environment (a cron job, a systemd unit, env -i): there is no home trash unless XDG_DATA_HOME names one
+        env.pop('HOME', None)
     tdmount = None
     if rng.random() < 0.06:
         # a trash directory that is itself a mount point (a tmpfs or a dedicated disk mounted on ~/.local/share/Trash, on
         # $topdir/.Trash-$uid): it is on ANOTHER volume than the files around it
-        cands_ = [G.home_trash_of(env)] + [v_ + '/.Trash-%d' % uid for v_ in L['vols'] if L['trash'][v_]['alt'] in ('absent', 'dir')]
-        tdmount = rng.choice(cands_)
+        cands_ = [c_ for c_ in [G.home_trash_of(env)] if c_] + [v_ + '/.Trash-%d' % uid for v_ in L['vols'] if L['trash'][v_]['alt'] in ('absent', 'dir')]
+        tdmount = rng.choice(cands_ or [home + '/.local/share/Trash'])
         steps.append(['d', tdmount, 0o700])
         L['mounts'].append(tdmount)
     place = rng.choice(['home', 'home', 'vol', 'vol', 'nested', 'via_link', 'link_parent', 'root_tmp', 'link_arg_slash'])
@@ -156,8 +159,10 @@ def check(sim, case, st):
     if not files:
         return []
     env, uid, cwd = spec.get('env', {}), spec.get('uid', 1000), spec.get('cwd', '/')
-    if not env.get('HOME') or (env.get('XDG_DATA_HOME') and not env['XDG_DATA_HOME'].startswith('/')):
+    if env.get('XDG_DATA_HOME') and not env['XDG_DATA_HOME'].startswith('/'):
         return []
+    if not env.get('HOME'):
+        st.probes['HOME-not-in-the-environment'] += 1
     mounts = OR.mounts_of(case)
     snap0 = sim.snap()
     nms = [OP.name_entry(sim.root, cwd, f, snap0, mounts) for f in files]
